@@ -59,3 +59,26 @@ Theorem C16_code_tie : forall fetch fuel url max chain,
   Equiv.outcome_of (PyGen.gen_get_with_redirects fetch fuel url max chain) = fst (follow fetch fuel max url chain).
 Proof. exact Equiv.get_with_redirects_tie. Qed.
 Print Assumptions C16_code_tie.
+
+(* ---- tie to the code (client/session.py GeminiClient.__init__ and get): theorems of coq/Equiv/EquivSession.v (statements there), re-checked against the definitions
+   regenerated from /repo's working tree; see DESIGN.md 11.8 ---- *)
+From NV Require Equiv.EquivSession.
+Theorem C16_code_init_tie : ltac:(let t := type of @EquivSession.init_tie in exact t).
+Proof. exact (@EquivSession.init_tie). Qed.
+Print Assumptions C16_code_init_tie.
+
+Theorem C16_code_init_defaults : ltac:(let t := type of @EquivSession.init_defaults in exact t).
+Proof. exact (@EquivSession.init_defaults). Qed.
+Print Assumptions C16_code_init_defaults.
+
+Theorem C16_code_get_tie : ltac:(let t := type of @EquivSession.get_tie in exact t).
+Proof. exact (@EquivSession.get_tie). Qed.
+Print Assumptions C16_code_get_tie.
+
+(* ---- tie to the code (client/session.py: get -> _get_with_redirects with the constructor's bound = the model's Redirect.get): theorems of coq/Equiv/EquivSessionGet.v (statements there), re-checked against the definitions
+   regenerated from /repo's working tree; see DESIGN.md 11.8 ---- *)
+From NV Require Equiv.EquivSessionGet.
+Theorem C16_code_get_redirect_tie : ltac:(let t := type of @EquivSessionGet.get_redirect_tie in exact t).
+Proof. exact (@EquivSessionGet.get_redirect_tie). Qed.
+Print Assumptions C16_code_get_redirect_tie.
+
